@@ -80,3 +80,10 @@ Proof.
   induction n as [|n IH]; intros t; [constructor|].
   constructor; [|apply IH]. intro H. apply zrange_in in H. lia.
 Qed.
+
+Fixpoint forall2b {A B} (f : A -> B -> bool) (a : list A) (b : list B) : bool :=
+  match a, b with
+  | [], [] => true
+  | x :: a', y :: b' => f x y && forall2b f a' b'
+  | _, _ => false
+  end.
